@@ -86,3 +86,8 @@ func walkCheck(id string, fam *e1.Family, tier common.Tier) int {
 
 func C01(tier common.Tier) int { return walkCheck("C01", &e1.FamIMM, tier) }
 func C02(tier common.Tier) int { return walkCheck("C02", &e1.FamCTOR, tier) }
+
+func init() {
+	Register("C01", C01)
+	Register("C02", C02)
+}
